@@ -19,10 +19,16 @@ from vf.tlc import MachineryError
 META = {
     "engine": "wire",
     "text": "Semantics.tla is an interpreter, in TLA+, for service programs (methods of kind unary/producer/exchange, "
-            "with or without header, zero- or one-column outputs, bodies = step scripts over {return, emit (plain / "
-            "with application metadata / zero-row), log at 5 levels, finish, emit+finish, raise of 3 exception "
-            "classes, log-only and empty steps}) and client call scripts (call, tick/exchange, iterate, close, "
-            "cancel). TLC enumerates programs x scripts exhaustively within the slice bounds (<=3 methods per program, "
+            "with a full / field-less / no header, zero- or one-column outputs, state in the cursor or split into call "
+            "state with a union state annotation, bodies = step scripts over {return (value / None / optional None), emit "
+            "(plain / with application metadata / zero-row with and without metadata), log at 5 levels, finish, "
+            "emit+finish, emit-then-fail, raise of 6 exception classes with short/long/multi-line/empty messages, "
+            "log-only and empty steps}) and client call scripts (call with three argument-passing shapes, "
+            "tick/exchange with 0/1/2-row inputs and input metadata, iterate, close and cancel after every tick count). "
+            "The spec's ConfigSpace lists the transport product and the deployment knobs (IPC validation level, describe, "
+            "socket-side externalization, small shm segment, sticky session view, call-state cache warm/cold/two "
+            "load-balanced workers, zstd level, externalized-object codec, next_with_token+resume_stream, one-sided "
+            "compression, WorkerPool borrows) drawn per run as a covering assignment. TLC enumerates programs x scripts exhaustively within the slice bounds (<=3 methods per program, "
             "<=3 steps per body, <=3 calls per script), checks 9 sanity invariants of the interpreter on every case "
             "(nothing after the first error, one exchange output per input, log order, ...) and emits the one "
             "client-observable history of each. The driver generates a real Protocol + implementation from each "
@@ -236,7 +242,7 @@ def _run(ctx: Ctx, pools: list) -> None:
     for j in jobs:
         j["calls"] = j["case"]["calls"]
         j["subdir"] = str(wd)
-    budget = 80.0 if ctx.quick else 420.0
+    budget = 80.0 if ctx.quick else 400.0
     t_exec = time.time()
     deadline = t_exec + budget
     results: list = [None] * len(jobs)
@@ -247,7 +253,7 @@ def _run(ctx: Ctx, pools: list) -> None:
 
         def submit_some() -> None:
             nonlocal pending
-            while pending < nproc * 3 and time.time() < deadline:
+            while pending < nproc * 2 and time.time() < deadline:
                 try:
                     i, j = next(it)
                 except StopIteration:
